@@ -4,7 +4,9 @@ package fsh
 
 import (
 	"fmt"
+	"os"
 	"sort"
+	"strings"
 
 	"github.com/goose-lang/goose/machine/filesys"
 
@@ -12,7 +14,14 @@ import (
 	"verif/simunix"
 )
 
-var Dirs = []string{"d", "d2"}
+// Dirs are the directory names every harness uses: one a prefix of the other.  VERIF_FS_DIRS
+// replaces them (spelling variants such as "d2/": the same directory spelled with a trailing slash throughout).
+var Dirs = func() []string {
+	if v := os.Getenv("VERIF_FS_DIRS"); v != "" {
+		return strings.Split(v, ",")
+	}
+	return []string{"d", "d2"}
+}()
 var NamesAB = []string{"f", "g"}
 
 func Big(n int, seed byte) []byte {
